@@ -686,3 +686,262 @@ Proof.
     + rewrite app_length. reflexivity.
   - rewrite evs_len_cons, !evs_len_app, evs_len_cons. cbn [snd]. change (evs_len []) with 0%N. lia.
 Qed.
+
+(* ---- versions < 3.0: no Frame End, so a frame stays open until the next frame, Game End or end of stream ---- *)
+Definition slot_open (c : slot) (o : option (list byte * list byte)) : slot :=
+  match o with
+  | Some (p, q) => upd_slot (fun d => push_post q (push_pre p d)) c
+  | None => c
+  end.
+
+(* the frame's events applied, absent characters not yet padded *)
+Definition add_open (fr : frames) (f : aframe) : frames :=
+  {| f_ids := f_ids fr ++ [af_id f];
+     f_chars := map2 slot_open (f_chars fr) (af_slots f);
+     f_start := option_map (fun rows => rows ++ [af_start f]) (f_start fr);
+     f_end := f_end fr; f_item_off := f_item_off fr; f_item := f_item fr |}.
+
+Definition closef (L : layout) (fr : frames) : frames := frame_close_frames L fr.
+
+Lemma closef_closed L fr : finv fr -> closef L fr = fr.
+Proof.
+  intro H. unfold closef, frame_close_frames. destruct fr as [ids cs st en io it]. cbn in *. f_equal.
+  induction cs as [|c cs IH]; [reflexivity|]. inversion H as [|? ? Hc H']; subst. cbn [map]. f_equal; [|apply IH; exact H'].
+  destruct c as [p fo d]. cbn in *. f_equal. apply pad_full. destruct Hc as (H1 & _). exact H1.
+Qed.
+
+Lemma map2_open_post_pre : forall chars os, length chars = length os ->
+  map2 (slot_upd false) (map2 (slot_upd true) chars os) os = map2 slot_open chars os.
+Proof.
+  induction chars as [|c cs IH]; intros [|o os] H; cbn in *; try discriminate; try reflexivity.
+  f_equal; [destruct o as [[p q]|]; reflexivity | apply IH; lia].
+Qed.
+
+Lemma close_add_open v L fr f :
+  vgte v 3 0 = false -> shape v fr -> finv fr -> length (f_chars fr) = length (af_slots f) ->
+  af_items f = [] ->
+  closef L (add_open fr f) = add_frame v L fr f.
+Proof.
+  intros Hv [S1 S2 S3 S4] Hinv Hlen Hit.
+  destruct (f_end fr) eqn:Ee; [rewrite Hv in S2; discriminate|].
+  destruct (f_item fr) eqn:Ei; [rewrite Hv in S3; discriminate|].
+  destruct (f_item_off fr) eqn:Eo; [rewrite Hv in S4; discriminate|].
+  unfold closef, frame_close_frames, add_open, add_frame. cbn [f_ids f_chars f_start f_end f_item_off f_item].
+  rewrite Ee, Ei, Eo. cbn [option_map]. f_equal.
+  rewrite app_length. cbn [length]. rewrite Nat.add_1_r.
+  rewrite <- (map2_open_post_pre (f_chars fr) (af_slots f) Hlen).
+  apply (chars_after L (length (f_ids fr)) (f_chars fr) (af_slots f) Hinv Hlen).
+Qed.
+
+Lemma closef_ids L fr : f_ids (closef L fr) = f_ids fr. Proof. reflexivity. Qed.
+Lemma closef_tags L fr : tags (f_chars (closef L fr)) = tags (f_chars fr).
+Proof. unfold closef, frame_close_frames, tags. cbn. rewrite map_map. reflexivity. Qed.
+Lemma closef_ports L fr : Forall (fun c => (sl_port c < 256)%N) (f_chars fr) -> Forall (fun c => (sl_port c < 256)%N) (f_chars (closef L fr)).
+Proof. unfold closef, frame_close_frames. cbn. intro H. rewrite Forall_map. exact H. Qed.
+Lemma closef_start L fr : f_start (closef L fr) = f_start fr. Proof. reflexivity. Qed.
+
+(* ---- one frame, 2.2 <= version < 3.0: Frame Start (which closes the previous frame), Pre*, Post* ---- *)
+Lemma frame_22 s fro k f slots :
+  vgte (ver s) 2 2 = true -> vgte (ver s) 3 0 = false ->
+  let fr := closef (ps_layout s) fro in
+  shape (ver s) fr -> tags (f_chars fr) = slots -> NoDup slots ->
+  Forall (fun c => (sl_port c < 256)%N) (f_chars fr) ->
+  wf_frame (ver s) (ps_layout s) slots f = true ->
+  run_events (st s fro k) (frame_events (ver s) slots f)
+  = Ok (st s (add_open fr f) (k + evs_len (frame_events (ver s) slots f))).
+Proof.
+  intros Hv22 Hv30 fr Hsh Htags Hnd Hports Hwf.
+  destruct (wf_frame_inv _ _ _ _ Hwf) as (Hid & Hls & Hle & Hits & Hlsl & Hrows & _).
+  rewrite Hv30 in Hle, Hits. rewrite Hv22 in Hls.
+  destruct Hsh as [S1 S2 S3 S4].
+  destruct (f_start fr) as [srows|] eqn:Es; [|rewrite Hv22 in S1; discriminate].
+  assert (Hlen : length (f_chars fr) = length (af_slots f)).
+  { rewrite Hlsl, <- Htags. unfold tags. rewrite map_length. reflexivity. }
+  unfold frame_events. rewrite Hv22, Hv30. cbn [app]. rewrite app_nil_r.
+  set (id := af_id f) in *.
+  change ((Event_FrameStart, i32_bytes id ++ af_start f) :: char_events true id slots (af_slots f) ++ char_events false id slots (af_slots f))
+    with ([(Event_FrameStart, i32_bytes id ++ af_start f)] ++ char_events true id slots (af_slots f) ++ char_events false id slots (af_slots f)).
+  rewrite run_events_app. cbn [run_events].
+  assert (Eso : f_start fro = Some srows) by (rewrite <- Es; reflexivity).
+  rewrite (fstart_event s fro k id (af_start f) srows Hid Hls Eso).
+  replace (vlt (ver s) 3 0) with true by (rewrite vlt_vgte, Hv30; reflexivity). cbv zeta.
+  replace (N.eqb Event_FrameStart Event_GameEnd) with false by reflexivity.
+  rewrite add_bytes_st. fold (closef (ps_layout s) fro). fold fr.
+  set (fr1 := {| f_ids := f_ids fr ++ [id]; f_chars := f_chars fr; f_start := Some (srows ++ [af_start f]);
+                 f_end := f_end fr; f_item_off := f_item_off fr; f_item := f_item fr |}).
+  assert (Hl1 : last (map Some (f_ids fr1)) None = Some id) by apply last_map_snoc.
+  rewrite run_events_app. rewrite <- Htags.
+  rewrite (run_chars true (af_slots f) [] (f_chars fr) s fr1 _ id Hl1 Hid eq_refl Hlen);
+    [ | cbn [app]; rewrite Htags; exact Hnd | exact Hports | exact Hrows ].
+  cbn [app].
+  set (cs1 := map2 (slot_upd true) (f_chars fr) (af_slots f)).
+  set (fr2 := with_chars fr1 cs1).
+  assert (Htags1 : tags cs1 = tags (f_chars fr)) by (apply tags_map2; exact Hlen).
+  rewrite <- Htags1.
+  rewrite (run_chars false (af_slots f) [] cs1 s fr2 _ id Hl1 Hid eq_refl);
+    [ | unfold cs1; rewrite map2_length; [exact Hlen|exact Hlen]
+      | cbn [app]; rewrite Htags1, Htags; exact Hnd
+      | | exact Hrows ].
+  2:{ unfold cs1. clear - Hports Hlen. revert Hlen Hports. generalize (af_slots f). generalize (f_chars fr).
+      induction l as [|c l IH]; intros [|o os] Hlen Hp; cbn in *; try discriminate; [constructor|].
+      inversion Hp; subst. constructor; [destruct o as [[? ?]|]; assumption|apply IH; [lia|assumption]]. }
+  cbn [app]. f_equal. f_equal.
+  - unfold add_open, with_chars. cbn [f_ids f_chars f_start f_end f_item_off f_item fr2 fr1].
+    rewrite Es. cbn [option_map]. f_equal. unfold cs1. apply map2_open_post_pre. exact Hlen.
+  - rewrite evs_len_cons, !evs_len_app. cbn [snd]. lia.
+Qed.
+
+(* ---- one frame, version < 2.2: no Frame Start; the first Pre event with the next id opens the frame ---- *)
+Lemma gte22_false_30 v : vgte v 2 2 = false -> vgte v 3 0 = false.
+Proof. intro H. destruct (vgte v 3 0) eqn:E; [|reflexivity]. apply gte30_22 in E. congruence. Qed.
+
+Lemma first_some {A} (os : list (option A)) : (exists o, In (Some o) os) ->
+  exists nones x rest, os = nones ++ Some x :: rest /\ Forall (fun o => o = None) nones.
+Proof.
+  induction os as [|o os IH]; intros [x Hin]; [destruct Hin|].
+  destruct o as [y|].
+  - exists [], y, os. split; [reflexivity|constructor].
+  - destruct Hin as [Hd|Hin]; [discriminate|].
+    destruct (IH (ex_intro _ x Hin)) as (n & y & r & -> & Hn). exists (None :: n), y, r. split; [reflexivity|constructor; [reflexivity|exact Hn]].
+Qed.
+
+Lemma char_events_nones pre id : forall (tg : list (N * bool)) nones rest,
+  Forall (fun o : option (list byte * list byte) => o = None) nones -> length tg = length nones ->
+  forall tg2, char_events pre id (tg ++ tg2) (nones ++ rest) = char_events pre id tg2 rest.
+Proof.
+  induction tg as [|t tg IH]; intros [|o nones] rest Hn Hl tg2; cbn in Hl; try discriminate; [reflexivity|].
+  inversion Hn; subst. unfold char_events. cbn [app combine]. rewrite flat_map_cons'. cbn [snd app].
+  apply IH; [assumption|lia].
+Qed.
+
+Lemma map2_nones {A} (f : slot -> option A -> slot) (Hf : forall c, f c None = c) : forall done nones todo rest,
+  Forall (fun o => o = None) nones -> length done = length nones ->
+  map2 f (done ++ todo) (nones ++ rest) = done ++ map2 f todo rest.
+Proof.
+  induction done as [|c done IH]; intros [|o nones] todo rest Hn Hl; cbn in Hl; try discriminate; [reflexivity|].
+  inversion Hn; subst. cbn [app map2]. rewrite Hf. f_equal. apply IH; [assumption|lia].
+Qed.
+
+Lemma pre_event_open s fro k id done c todo p :
+  vgte (ver s) 2 2 = false ->
+  (match last (map Some (f_ids fro)) None with Some l => (l + 1)%Z = id | None => id = FIRST_INDEX end) ->
+  in_i32 id = true ->
+  let fr := closef (ps_layout s) fro in
+  f_chars fr = done ++ c :: todo -> NoDup (tags (done ++ c :: todo)) -> (sl_port c < 256)%N ->
+  length p = sz_pre (ps_layout s) ->
+  handle_event Event_FramePre (i32_bytes id ++ [n2b (sl_port c); n2b (if sl_fol c then 1 else 0)] ++ p) (st s fro k)
+  = Ok (Event_FramePre, st s (with_chars (with_ids fr (f_ids fr ++ [id])) (done ++ upd_slot (push_pre p) c :: todo)) k).
+Proof.
+  intros Hv Hnext Hid fr Hch Hnd Hp Hlen.
+  rewrite handle_event_known by reflexivity.
+  change (handle_known Event_FramePre) with arm_pre. unfold arm_pre.
+  rewrite i32_roundtrip by exact Hid. cbn [bind app].
+  rewrite u8_hd_cons by exact Hp. cbn [bind].
+  rewrite u8_hd_cons by (destruct (sl_fol c); reflexivity). cbn [bind].
+  assert (Hfol : negb (N.eqb (if sl_fol c then 1 else 0) 0) = sl_fol c) by (destruct (sl_fol c); reflexivity).
+  rewrite Hfol. rewrite st_ver, Hv.
+  match goal with |- context [bind ?x (fun s1 => bind (data_lookup s1 _ _) _)] =>
+    assert (Hs1 : x = Ok (st s (with_ids fr (f_ids fr ++ [id])) k)) end.
+  { rewrite st_last. cbv zeta.
+    assert (Hz : Z.eqb (match last (map Some (f_ids fro)) None with Some l => l | None => (FIRST_INDEX - 1)%Z end + 1) id = true).
+    { destruct (last (map Some (f_ids fro)) None); apply Z.eqb_eq; lia. }
+    rewrite Hz. rewrite st_close, st_open. reflexivity. }
+  rewrite Hs1. cbn [bind].
+  unfold data_lookup. rewrite st_frames. cbn [with_ids f_chars]. rewrite Hch.
+  rewrite (find_slot_nth (done ++ c :: todo) (length done) (sl_port c) (sl_fol c) Hnd).
+  2:{ unfold tags. rewrite map_app. rewrite nth_error_app2 by (rewrite map_length; lia).
+      rewrite map_length, Nat.sub_diag. reflexivity. }
+  cbn [bind]. rewrite st_layout. rewrite read_push_exact0 by exact Hlen. cbn [bind].
+  rewrite st_set. f_equal. f_equal. unfold upd_char, with_chars. rewrite ?st_frames. cbn [with_ids f_chars f_ids f_start f_end f_item_off f_item].
+  rewrite Hch. rewrite (upd_nth_app done todo c). reflexivity.
+Qed.
+
+Lemma frame_lt22 s fro k f slots :
+  vgte (ver s) 2 2 = false ->
+  let fr := closef (ps_layout s) fro in
+  shape (ver s) fr -> tags (f_chars fr) = slots -> NoDup slots ->
+  Forall (fun c => (sl_port c < 256)%N) (f_chars fr) ->
+  wf_frame (ver s) (ps_layout s) slots f = true ->
+  (match last (map Some (f_ids fro)) None with Some l => (l + 1)%Z = af_id f | None => af_id f = FIRST_INDEX end) ->
+  run_events (st s fro k) (frame_events (ver s) slots f)
+  = Ok (st s (add_open fr f) (k + evs_len (frame_events (ver s) slots f))).
+Proof.
+  intros Hv22 fr Hsh Htags Hnd Hports Hwf Hnext.
+  pose proof (gte22_false_30 _ Hv22) as Hv30.
+  destruct (wf_frame_inv _ _ _ _ Hwf) as (Hid & Hls & Hle & Hits & Hlsl & Hrows & Hex).
+  destruct Hsh as [S1 S2 S3 S4].
+  destruct (f_start fr) as [srows|] eqn:Es; [rewrite Hv22 in S1; discriminate|].
+  assert (Hlen : length (f_chars fr) = length (af_slots f)).
+  { rewrite Hlsl, <- Htags. unfold tags. rewrite map_length. reflexivity. }
+  unfold frame_events. rewrite Hv22, Hv30. cbn [app]. rewrite app_nil_r.
+  set (id := af_id f) in *.
+  destruct (first_some (af_slots f) (Hex Hv22)) as (nones & [p q] & os' & Hos & Hn).
+  (* split the character slots at the first present one *)
+  assert (Hsplit : exists done c todo, f_chars fr = done ++ c :: todo /\ length done = length nones /\ length todo = length os').
+  { rewrite Hos in Hlen. rewrite app_length in Hlen. cbn [length] in Hlen.
+    exists (firstn (length nones) (f_chars fr)).
+    destruct (skipn (length nones) (f_chars fr)) as [|c todo] eqn:Esk.
+    - exfalso. assert (length (skipn (length nones) (f_chars fr)) = 0%nat) by (rewrite Esk; reflexivity).
+      rewrite skipn_length in H. lia.
+    - exists c, todo. split; [rewrite <- Esk; symmetry; apply firstn_skipn|].
+      split; [rewrite firstn_length; lia|].
+      assert (Hl : length (skipn (length nones) (f_chars fr)) = S (length todo)) by (rewrite Esk; reflexivity).
+      rewrite skipn_length in Hl. lia. }
+  destruct Hsplit as (done & c & todo & Hch & Hld & Hlt).
+  assert (Hrows2 : rows_ok (ps_layout s) (Some (p, q)) /\ Forall (rows_ok (ps_layout s)) os').
+  { rewrite Hos in Hrows. apply Forall_app in Hrows as [_ Hr]. inversion Hr; subst. split; assumption. }
+  destruct Hrows2 as [[Hlp Hlq] Hrows'].
+  assert (Hportc : (sl_port c < 256)%N /\ Forall (fun c0 => (sl_port c0 < 256)%N) todo).
+  { rewrite Hch in Hports. apply Forall_app in Hports as [_ Hp]. inversion Hp; subst. split; assumption. }
+  destruct Hportc as [Hpc Hptodo].
+  assert (Hnd' : NoDup (tags (done ++ c :: todo))) by (rewrite <- Hch, Htags; exact Hnd).
+  (* Pre events: the first one opens the frame *)
+  rewrite run_events_app. rewrite <- Htags, Hch. rewrite Hos.
+  rewrite tags_app. rewrite (char_events_nones true id (tags done) nones (Some (p, q) :: os') Hn);
+    [ | unfold tags; rewrite map_length; exact Hld ].
+  unfold char_events at 1. cbn [tags map combine]. rewrite flat_map_cons'. cbn [fst snd app].
+  fold (tags todo). fold (char_events true id (tags todo) os').
+  cbn [run_events].
+  match goal with |- context [handle_event _ ?pl _] => set (payload := pl) end.
+  assert (Hstep : handle_event Event_FramePre payload (st s fro k)
+                  = Ok (Event_FramePre, st s (with_chars (with_ids fr (f_ids fr ++ [id])) (done ++ upd_slot (push_pre p) c :: todo)) k))
+    by (unfold payload; apply (pre_event_open s fro k id done c todo p Hv22 Hnext Hid Hch Hnd' Hpc Hlp)).
+  rewrite Hstep.
+  replace (N.eqb Event_FramePre Event_GameEnd) with false by reflexivity.
+  rewrite add_bytes_st.
+  set (c' := upd_slot (push_pre p) c).
+  set (fr1 := with_chars (with_ids fr (f_ids fr ++ [id])) (done ++ c' :: todo)).
+  assert (Hl1 : last (map Some (f_ids fr1)) None = Some id) by apply last_map_snoc.
+  rewrite (run_chars true os' (done ++ [c']) todo s fr1 _ id Hl1 Hid);
+    [ | unfold fr1, with_chars; cbn [f_chars]; rewrite <- app_assoc; reflexivity
+      | exact Hlt
+      | rewrite <- app_assoc; cbn [app]; rewrite tags_app in *; cbn [tags map] in *; exact Hnd'
+      | exact Hptodo | exact Hrows' ].
+  rewrite <- app_assoc. cbn [app].
+  set (cs1 := done ++ c' :: map2 (slot_upd true) todo os').
+  assert (Hcs1 : cs1 = map2 (slot_upd true) (f_chars fr) (af_slots f)).
+  { unfold cs1. rewrite Hch, Hos. rewrite (map2_nones (slot_upd true) (fun _ => eq_refl) done nones (c :: todo) (Some (p, q) :: os') Hn Hld).
+    reflexivity. }
+  set (fr2 := with_chars fr1 cs1).
+  assert (Htags1 : tags cs1 = tags (f_chars fr)) by (rewrite Hcs1; apply tags_map2; exact Hlen).
+  (* Post events over all slots *)
+  rewrite <- Hos.
+  replace (tags done ++ (sl_port c, sl_fol c) :: tags todo)%list with (tags cs1)
+    by (rewrite Htags1, Hch, tags_app; reflexivity).
+  rewrite (run_chars false (af_slots f) [] cs1 s fr2 _ id Hl1 Hid eq_refl);
+    [ | rewrite Hcs1, map2_length; [exact Hlen|exact Hlen]
+      | cbn [app]; rewrite Htags1, Htags; exact Hnd
+      | | exact Hrows ].
+  2:{ rewrite Hcs1. clear - Hports Hlen. revert Hlen Hports. generalize (af_slots f). generalize (f_chars fr).
+      induction l as [|c l IH]; intros [|o os] Hlen Hp; cbn in *; try discriminate; [constructor|].
+      inversion Hp; subst. constructor; [destruct o as [[? ?]|]; assumption|apply IH; [lia|assumption]]. }
+  cbn [app]. f_equal. f_equal.
+  - unfold add_open, with_chars, with_ids. cbn [f_ids f_chars f_start f_end f_item_off f_item fr2 fr1].
+    rewrite Es. cbn [option_map]. f_equal.
+    + rewrite Hcs1. apply map2_open_post_pre. exact Hlen.
+    + unfold fr2, fr1, with_chars, with_ids. cbn [f_start]. exact Es.
+  - rewrite !evs_len_app.
+    assert (He : char_events true id ((sl_port c, sl_fol c) :: tags todo) (Some (p, q) :: os')
+                 = (Event_FramePre, payload) :: char_events true id (tags todo) os') by reflexivity.
+    rewrite He, evs_len_cons. cbn [snd]. lia.
+Qed.
